@@ -341,13 +341,15 @@ class ImplCoverage:
     def stop(self) -> dict:
         if self.cov is None:
             return {"measured": False, "why": "coverage package not importable"}
-        self.cov.stop()
+        cov = self.cov
+        cov.stop()
+        self.cov = None
         out: dict = {"measured": True, "files": {}}
         tot_s = tot_m = 0
         for f in self.files:
             path = os.path.join(self.repo, f)
             try:
-                _, stmts, _, missing, _ = self.cov.analysis2(path)
+                _, stmts, _, missing, _ = cov.analysis2(path)
             except Exception as e:  # noqa: BLE001
                 out["files"][f] = {"error": str(e)[:100]}
                 continue
@@ -359,20 +361,18 @@ class ImplCoverage:
         out["executed"] = tot_s - tot_m
         # the rest of the package (not anchor files of this property): executed statements only
         other: dict = {}
-        for path in sorted(self.cov.get_data().measured_files()):
+        for path in sorted(cov.get_data().measured_files()):
             rel = os.path.relpath(path, self.repo)
             if rel in self.files:
                 continue
             try:
-                _, stmts, _, missing, _ = self.cov.analysis2(path)
+                _, stmts, _, missing, _ = cov.analysis2(path)
             except Exception:  # noqa: BLE001
                 continue
             if len(stmts) > len(missing):
                 other[rel] = {"statements": len(stmts), "executed": len(stmts) - len(missing),
                               "missing_lines": _ranges(missing)}
         out["other_files"] = other
-        out["note"] = ("module-level statements executed at import time before measurement starts are "
-                       "counted as missing unless re-executed; function bodies are what matters here")
         return out
 
 
@@ -465,7 +465,8 @@ class Ctx:
         path.write_text(
             json.dumps(
                 {"property": self.prop, "seed": self.seed, "tier": self.tier, "what": what, "signature": sig,
-                 "failing_input_found": found_input, "replay": replay},
+                 "failing_input_found": found_input, "pythonhashseed": os.environ.get("PYTHONHASHSEED"),
+                 "replay": replay},
                 indent=1, default=str,
             )
         )
@@ -508,6 +509,7 @@ class Ctx:
             "disagreements_checked": len(self.disagreements),
             "known_findings_reported": [h["id"] for h in self.known_hits],
             "notes": self.notes,
+            "pythonhashseed": os.environ.get("PYTHONHASHSEED"),
         }
         if "leanchecker" in audit:
             cov["leanchecker"] = audit["leanchecker"]
